@@ -65,7 +65,9 @@ def _place(p, ss, ss2, mk):
 def _mk(kind, type_id, coord):
     from eos import Ship, Drone, FighterSquad, Coordinates
     it = {'ship': Ship, 'drone': Drone, 'fighter': FighterSquad}[kind](type_id)
-    it.coordinate = Coordinates(*coord)
+    if tuple(coord) != (0, 0, 0) or type_id % 2:
+        it.coordinate = Coordinates(*coord)
+    # else: the item keeps the coordinate it was born with (the origin)
     if sum(map(lambda v: hash(v) % 7, coord)) % 2:
         # where an item looks has nothing to do with where it is
         from eos import Orientation
